@@ -175,6 +175,13 @@ class SolverWrapper:
 
     def queue_fix_variable(self, var, value: Union[int, float]):
         """Queue a variable to be fixed (LB=UB=value) in a later batch update."""
+        # Requests take effect in call order, but the batch applies all fixes before all lower bounds:
+        # a lower bound queued earlier for the same variable is replaced by this fix, so it must not be applied after it
+        if self._pending_lb_vars:
+            keep = [i for i, v in enumerate(self._pending_lb_vars)
+                    if not (v is var or (hasattr(v, "index") and hasattr(var, "index") and v.index == var.index))]
+            self._pending_lb_vars = [self._pending_lb_vars[i] for i in keep]
+            self._pending_lb_vals = [self._pending_lb_vals[i] for i in keep]
         self._pending_fix_vars.append(var)
         self._pending_fix_vals.append(float(value))
 
